@@ -259,6 +259,7 @@ def run_seeded(prop: str, root: str, rc: int, evidence_dir, jobs: int = 16) -> i
     sdir = os.path.join(VERIF, "seeded")
     jobs_l = []
     by_design = set()
+    open_fa = []
     for d in sorted(os.listdir(sdir)) if os.path.isdir(sdir) else []:
         mp, pp = os.path.join(sdir, d, "meta.json"), os.path.join(sdir, d, "patch.diff")
         if not (os.path.exists(mp) and os.path.exists(pp)):
@@ -266,6 +267,9 @@ def run_seeded(prop: str, root: str, rc: int, evidence_dir, jobs: int = 16) -> i
         meta = json.load(open(mp))
         if meta.get("retired"):
             continue  # the tree moved on under this change (reason in its meta.json); kept for the record only
+        if meta.get("open_false_alarm"):
+            open_fa.append(d)  # a behaviour-preserving change that some check still REPORTS (DESIGN 8.25): kept, listed, not yet a regression test
+            continue
         kind = meta.get("kind", "defect")
         owner = meta.get("property") or meta.get("breaks_property")
         if kind == "defect" and owner != prop:
@@ -302,7 +306,8 @@ def run_seeded(prop: str, root: str, rc: int, evidence_dir, jobs: int = 16) -> i
     summ["wall_s"] = round(time.time() - t0, 2)
     print(f"[{prop}] seeded corpus: defects {summ['defects_reported']}/{summ['defects_total']} reported"
           f" (+{summ['defects_undecided_by_design']} undecided by design), behaviour-preserving changes "
-          f"{summ['neutral_silent']}/{summ['neutral_total']} silent, {len(summ['stale'])} skipped (context gone), {summ['wall_s']} s")
+          f"{summ['neutral_silent']}/{summ['neutral_total']} silent, {len(summ['stale'])} skipped (context gone)"
+          + (f", {len(open_fa)} open false alarm(s) not run (DESIGN 8.25)" if open_fa else "") + f", {summ['wall_s']} s")
     for f in summ["failures"]:
         print(f"  SEEDED-FAILURE {f['id']} ({f['kind']}): {f['status']} {f['detail']}")
     for s_ in summ["stale"]:
